@@ -16,13 +16,26 @@ for v in $R/coq/Extract/*.v; do
     if [ -n "$(find $R/coq/Model $R/coq/Spec $R/coq/Gen $v -name '*.v' -newer $stamp | head -1)" ]; then need=1; fi
   fi
   if [ $need = 1 ]; then
-    timeout 900 coqc -Q $R/coq FitV $v > $base.log 2>&1 || { cat $base.log; exit 1; }
-    touch $stamp
+    if timeout 900 coqc -Q $R/coq FitV $v > $base.log 2>&1; then
+      touch $stamp
+    else
+      # an extraction that no longer compiles (its model or one of its imports did not build) must not take the
+      # other properties' handlers down: the main model is required, the others are left out of the driver
+      cat $base.log
+      rm -f $stamp
+      ml=$(grep -o 'Extraction "[a-z0-9_]*\.ml"' $v | head -1 | sed 's/Extraction "//; s/"//')
+      [ -n "$ml" ] && rm -f $ml ${ml%.ml}.mli
+      [ "$base" = "Extract" ] && exit 1
+      echo "build_driver: leaving out $base ($ml)"
+    fi
   fi
 done
 cd $R/build/driver
 need=0
 [ -x vdriver ] || need=1
+# the set of extracted modules changed (one was left out or came back): rebuild
+ls $R/build/extract/*.ml 2>/dev/null | sort > .mods.new
+cmp -s .mods.new .mods 2>/dev/null || need=1
 for f in $R/build/extract/*.ml $R/driver/*.ml; do
   [ "$f" -nt vdriver ] && need=1
 done
@@ -36,6 +49,13 @@ if [ $need = 1 ]; then
   for f in $R/driver/h_*.ml; do
     [ -f "$f" ] || continue
     b=$(basename $f .ml)
+    # skip handler modules whose extracted model is missing
+    skip=0
+    for m in $(grep -o 'Fitmodel_[a-z0-9]*' $f | sort -u); do
+      lm=$(echo $m | tr A-Z a-z)
+      [ -f $R/build/extract/$lm.ml ] || skip=1
+    done
+    if [ $skip = 1 ]; then echo "build_driver: leaving out $b (its extracted model is missing)"; rm -f $b.ml; continue; fi
     hs="$hs $b.ml"
     m="$(echo ${b:0:1} | tr a-z A-Z)${b:1}"
     echo "let () = $m.install Registry.register" >> h_all.ml
@@ -43,4 +63,5 @@ if [ $need = 1 ]; then
   ocamlfind ocamlopt -O3 -w -a -package str $mods conv.ml registry.ml $hs h_all.ml handlers.ml driver.ml -o vdriver.new 2>build.log || \
   ocamlfind ocamlopt -w -a $mods conv.ml registry.ml $hs h_all.ml handlers.ml driver.ml -o vdriver.new 2>build.log || { cat build.log; exit 1; }
   mv vdriver.new vdriver
+  mv .mods.new .mods
 fi
